@@ -80,7 +80,8 @@ def build_request(r, rng):
     o = r["origin"]
     okey = b"Sec-WebSocket-Origin" if v == "ok-8" else b"Origin"
     oval = {"ok-allowed": rng.choice([b"http://good.example.com", b"http://good.example.com:80", b"HTTP://GOOD.example.com"]),
-            "notallowed": rng.choice([b"http://evil.example.com", b"https://good.example.com", b"http://good.example.com.evil.org"]),
+            "notallowed": rng.choice([b"http://evil.example.com", b"https://good.example.com", b"http://good.example.com.evil.org",
+                                      b"http://good.example.com:0", b"http://good.example.com:00"]),      # (port 0 is a port, not "no port")
             "allowed-as-prefix": rng.choice([b"http://good.example.com:8080", b"http://good.example.com:800"]),
             "null": rng.choice([b"null", b"file:///tmp/x.html"]), "unparsable": rng.choice([b"http://", b"http://[::1", b"://x"])}.get(o)
     if oval is not None:
